@@ -22,6 +22,8 @@ def gen(rng, tier):
     kind = rng.choice(['WFQ', 'WFQ', 'VC'])
     static = kind == 'WFQ' and rng.random() < 0.3
     case = sched.gen_sched_case(rng, tier, kind=kind, static=static, monitor=False)
+    if case.get('mode') == 'GRID' and rng.random() < 0.12:
+        case['t0'] = rng.choice([-100, -7.5, -1000, 64])      # a clock that does not start at zero
     if rng.random() < 0.3:
         # equal stamps on purpose: equal weights and sizes, simultaneous arrivals
         v = case['table'][0][1]
